@@ -29,6 +29,9 @@ func checkC02(c *Check) {
 	ruleBuffersRefetched(c, p, "R02.10", "Writer", "Reader", "CompressingReader")
 	ruleContentHashDiscipline(c, p, "R02.11")
 	c.RuleDoc["R02.10"] = "block-sized buffers agree with the frame's block size: re-fetched at frame start"
+	ruleChunkAccounting(c, p, "R02.16")
+	ruleReadContract(c, p, "R02.16")
+	c.RuleDoc["R02.16"] = "chunking arithmetic of Writer.Write and Reader.Read (bounds prover): counts, cursor stores, no panic"
 	ruleOwnBufferNotAliased(c, p, "R02.15")
 	c.RuleDoc["R02.15"] = "the Reader's block buffer never becomes the caller's buffer"
 	ruleLegacyDescriptor(c, p, "R02.14")
